@@ -904,6 +904,8 @@ def gen_case(rng, cid, py_builtins, stats):
             opts += [meth("country"), meth("upper"), ["bin", "Add", R, R], ["sub", R, [["int", 0]]]]
         elif kind == "num":
             opts += [meth("double"), meth("bump", iv), ["bin", "Add", R, iv]]
+        elif kind == "xfloat":
+            opts += [["bin", "Mul", R, ["int", 2]], ["bin", "Add", R, iv]]
         return r.choice(opts)
 
     def gen_probes(i):
